@@ -16,12 +16,12 @@ META = {
         'all-True array or the scatter outmask[xsort] = maskwork); C10.CTOR-SORTED - the spline set is built from the sorted good '
         'abscissae; C10.WEIGHT-MASK - every sset.fit call is weighted by invwork*maskwork and the working mask starts from '
         'invvar > 0; C10.INMASK - djs_reject receives the previous working mask as inmask and the sorted data/model/weights; '
-        'C10.LIMITS - lower/upper reach djs_reject unchanged and djs_reject uses diff < -lower*sigma, diff > upper*sigma in both '
+        'C10.MASK-EXITS - on every path to every return the returned mask has received the working mask (so non-positive weights are flagged False also on the early exits); C10.LIMITS - lower/upper reach djs_reject unchanged and djs_reject uses diff < -lower*sigma, diff > upper*sigma in both '
         'branches; C10.LOOP - the loop is bounded by iiter <= maxiter, runs once for maxiter = 0, and continues exactly while '
         'djs_reject reports a changed mask (condition evaluated on the values True/False the flag can take); C10.ROWS - fit uses every '
         'interval that holds at least one point. NOT decided: equality with an independent rejection procedure, curve invariance '
         'under permutation (needs numerical determinism of the solver).'),
-    'floors': {'C10.UNSORT': 5, 'C10.CTOR-SORTED': 1, 'C10.WEIGHT-MASK': 2, 'C10.INMASK': 2, 'C10.LIMITS': 7, 'C10.LOOP': 5, 'C10.ROWS': 2},
+    'floors': {'C10.UNSORT': 5, 'C10.CTOR-SORTED': 1, 'C10.WEIGHT-MASK': 2, 'C10.INMASK': 2, 'C10.LIMITS': 7, 'C10.LOOP': 5, 'C10.ROWS': 2, 'C10.MASK-EXITS': 3},
 }
 
 
